@@ -95,7 +95,7 @@ class Memory(Backend):
         for key in keys:
             val = await self._get(key, default=default)
             if isinstance(val, Bitarray):
-                continue
+                val = default  # a bit field is not a value; the answer stays one per requested key
             values.append(val)
         return tuple(values)
 
